@@ -52,10 +52,17 @@ def gen(rng, tier, i):
         v6 = rng.random() < 0.25
         ip = sc.origin_ip(v6)
         port = sc.port()
+        same_host = origins and rng.random() < 0.35
+        if same_host:
+            # a second service on the same host (same address and name, another port)
+            prev = rng.choice(origins)
+            v6, ip = prev["v6"], prev["ip"]
         addr = ("[%s]:%d" % (ip, port)) if v6 else "%s:%d" % (ip, port)
         sc.actors.append({"essential": True, "kind": "udp", "id": "o%d" % k, "bind": addr, "echo": True, "ops": []})
         o = {"id": "o%d" % k, "ip": ip, "port": port, "addr": addr, "v6": v6, "name": None}
-        if rng.random() < 0.3 and entry != "reverseudp":
+        if same_host:
+            o["name"] = prev["name"]
+        elif rng.random() < 0.3 and entry != "reverseudp":
             o["name"] = "udp%d.example.sim" % k
             sc.dns[o["name"]] = [ip]
         origins.append(o)
